@@ -38,9 +38,14 @@ FIELDS_SIS = [f for f in FIELDS_SIR if f[0] != "R"]
 LEAN_TY = {"int": "Int", "rat": "Rat", "erat": "ERat", "bool": "Bool", "node": "Node", "link": "Node × Node", "st": "St",
            "orat": "Option Rat", "list:int": "List Int", "list:erat": "List ERat", "ld:node": "GenLD.PyLD Node",
            "ld:link": "GenLD.PyLD (Node × Node)", "status": "Node → St", "trans": "List (ERat × Option Node × Node)",
-           "ddlist": "List (Node × List ERat)"}
+           "ddlist": "List (Node × List ERat)", "statusσ": "Node → τ", "counts": "List (τ × List Int)",
+           "hist": "List (Node × (List ERat × List τ))"}
 DEFAULT = {"int": "0", "rat": "0", "erat": "none", "list:int": "[]", "list:erat": "[]", "ld:node": "GenLD.init false",
-           "ld:link": "GenLD.init false", "status": "fun _ => St.S", "trans": "[]", "ddlist": "[]"}
+           "ld:link": "GenLD.init false", "status": "fun _ => St.S", "trans": "[]", "ddlist": "[]", "statusσ": "P.ic", "counts": "[]", "hist": "[]"}
+FIELDS_CC = [("status", "statusσ"), ("times", "list:erat"), ("t", "erat"), ("delay", "erat"), ("data", "counts"),
+             ("nodes_by_rate", "ld:node"), ("node_history", "hist")]
+PARAMS_CC = {"tmin": ("P.tmin", "rat"), "tmax": ("P.tmax", "erat"), "return_full_data": ("P.full", "bool"),
+             "return_statuses": ("P.ret", "sigmas")}
 PARAMS = {"tau": ("P.tau", "rat"), "gamma": ("P.gamma", "rat"), "tmin": ("P.tmin", "rat"), "tmax": ("P.tmax", "erat"),
           "return_full_data": ("P.full", "bool"), "initial_infecteds": ("initial_infecteds", "nodes"),
           "initial_recovereds": ("initial_recovereds", "nodes")}
@@ -48,8 +53,11 @@ STATUS = {"S": "St.S", "I": "St.I", "R": "St.R"}
 
 
 class Fn:
-    def __init__(self, node, fields, ns):
+    def __init__(self, node, fields, ns, params=None, profile="gillespie"):
         self.node, self.fields, self.ns = node, dict(fields), ns
+        self.params = params if params is not None else PARAMS
+        self.profile = profile
+        self.loc_ty = "Loc τ" if profile == "complex" else "Loc"
         self.field_order = [f for f, _ in fields]
         self.temps = {}          # let-bound names -> kind
         self.n = 0
@@ -77,8 +85,8 @@ class Fn:
                 return [], e.id, self.temps[e.id]
             if e.id in self.fields:
                 return [], f"σ.{e.id}", self.fields[e.id]
-            if e.id in PARAMS:
-                return [], PARAMS[e.id][0], PARAMS[e.id][1]
+            if e.id in self.params:
+                return [], self.params[e.id][0], self.params[e.id][1]
             raise Unsupported(f"unknown name {e.id}")
         if isinstance(e, ast.Tuple):
             parts = [self.expr(x, ind) for x in e.elts]
@@ -105,6 +113,20 @@ class Fn:
             if kv == "status":
                 pk, key, _ = self.expr(e.slice, ind)
                 return pv + pk, f"({v} {key})", "st"          # defaultdict(lambda:'S') read: the default is the function's value
+            if kv == "statusσ":
+                pk, key, _ = self.expr(e.slice, ind)
+                return pv + pk, f"({v} {key})", "sigma"
+            if kv == "counter":
+                pk, key, kk = self.expr(e.slice, ind)
+                if kk != "sigma":
+                    raise Unsupported("Counter key")
+                return pv + pk, f"(PyTM.countSt P.nodes {v} {key})", "int"
+            if kv == "counts":
+                pk, key, kk = self.expr(e.slice, ind)
+                if kk != "sigma":
+                    raise Unsupported("data key")
+                t = self.tmp("col")
+                return pv + pk + [f"{ind}let {t} ← PyTM.liftE (PyRT.dictGet {v} {key})"], t, "list:int"
             if kv in ("list:int", "list:erat"):
                 idx = e.slice
                 ek = "int" if kv == "list:int" else "erat"
@@ -141,6 +163,8 @@ class Fn:
             pb, b, kb = self.expr(e.comparators[0], ind)
             pre = pa + pb
             o = type(e.ops[0])
+            if o is ast.In and ka == "sigma" and kb == "sigmas":
+                return pre, f"(decide ({a} ∈ {b}))", "bool"
             if "erat" in (ka, kb):
                 a2 = a if ka == "erat" else f"(some {a})"
                 b2 = b if kb == "erat" else f"(some {b})"
@@ -184,6 +208,22 @@ class Fn:
             return p + [f"{ind}let {t} ← TM.popExpo {a}"], t, "rat"
         if src == "G.order()":
             return [], "(P.order : Int)", "int"
+        if self.profile == "complex":
+            if src == "G.nodes()":
+                return [], "P.nodes", "nodes"
+            if src == "Counter(status.values())":
+                return [], "σ.status", "counter"
+            if src == "data.keys()":
+                return [], "(σ.data.map (·.1))", "sigmas"
+            if isinstance(f, ast.Name) and f.id in ("rate_function", "transition_choice", "get_influence_set"):
+                if [ast.unparse(a) for a in e.args[:1] + e.args[2:]] != ["G", "status", "parameters"] or e.keywords or len(e.args) != 4:
+                    raise Unsupported("callback arguments " + src)
+                p1, a, ka = self.expr(e.args[1], ind)
+                if ka != "node":
+                    raise Unsupported("callback node argument")
+                fld, kind = {"rate_function": ("rate", "rat"), "transition_choice": ("choose", "sigma"),
+                             "get_influence_set": ("infl", "nodes")}[f.id]
+                return p1, f"(P.{fld} σ.status {a})", kind
         if isinstance(f, ast.Name) and f.id == "len" and len(e.args) == 1:
             p, a, k = self.expr(e.args[0], ind)
             if k == "nodes":
@@ -217,6 +257,13 @@ class Fn:
                     raise Unsupported("update argument kinds")
                 l = self.tmp("l")
                 return p1 + p2 + [f"{ind}let {l} ← PyTM.liftE (GenLD.update σ.{obj} {a} {w})", f"{ind}let σ := {{ σ with {obj} := {l} }}"], "()", "unit"
+            if f.attr == "insert" and len(e.args) == 1 and len(e.keywords) == 1 and e.keywords[0].arg == "weight":
+                p1, a, ka = self.expr(e.args[0], ind)
+                p2, w, kw = self.expr(e.keywords[0].value, ind)
+                if ka != item or kw != "rat":
+                    raise Unsupported("insert argument kinds")
+                l = self.tmp("l")
+                return p1 + p2 + [f"{ind}let {l} ← PyTM.liftE (GenLD.insert σ.{obj} {a} (some {w}))", f"{ind}let σ := {{ σ with {obj} := {l} }}"], "()", "unit"
             if f.attr == "remove" and len(e.args) == 1 and not e.keywords:
                 p1, a, ka = self.expr(e.args[0], ind)
                 if ka != item:
@@ -231,6 +278,20 @@ class Fn:
                 k = self.fields[tgt.id]
                 if (k, ka) in (("list:int", "int"), ("list:erat", "erat"), ("trans", "transrow")):
                     return p + [f"{ind}let σ := {{ σ with {tgt.id} := σ.{tgt.id} ++ [{a}] }}"], "()", "unit"
+            if isinstance(tgt, ast.Subscript) and isinstance(tgt.value, ast.Name) and self.fields.get(tgt.value.id) == "counts" and ka == "int":
+                pk, key, kk = self.expr(tgt.slice, ind)
+                d, c = tgt.value.id, self.tmp("col")
+                return p + pk + [f"{ind}let {c} ← PyTM.liftE (PyRT.dictGet σ.{d} {key})",
+                                 f"{ind}let σ := {{ σ with {d} := alSet σ.{d} {key} ({c} ++ [{a}]) }}"], "()", "unit"
+            if isinstance(tgt, ast.Subscript) and isinstance(tgt.value, ast.Subscript) and isinstance(tgt.value.value, ast.Name) \
+                    and self.fields.get(tgt.value.value.id) == "hist" and isinstance(tgt.slice, ast.Constant) and tgt.slice.value in (0, 1):
+                pk, key, kk = self.expr(tgt.value.slice, ind)
+                d, h = tgt.value.value.id, self.tmp("h")
+                if (tgt.slice.value, ka) not in ((0, "erat"), (1, "sigma")):
+                    raise Unsupported("history append kinds")
+                new = f"({h}.1 ++ [{a}], {h}.2)" if tgt.slice.value == 0 else f"({h}.1, {h}.2 ++ [{a}])"
+                return p + pk + [f"{ind}let {h} ← PyTM.liftE (PyRT.dictGet σ.{d} {key})",
+                                 f"{ind}let σ := {{ σ with {d} := alSet σ.{d} {key} {new} }}"], "()", "unit"
             if isinstance(tgt, ast.Subscript) and isinstance(tgt.value, ast.Name) and self.fields.get(tgt.value.id) == "ddlist" and ka == "erat":
                 pk, key, kk = self.expr(tgt.slice, ind)
                 d = tgt.value.id
@@ -273,6 +334,31 @@ class Fn:
                     self.temps[a] = self.temps[b] = "node"
                     out += p + [f"{ind}let ({a}, {b}) := {t}"]
                     continue
+                if self.profile == "complex":
+                    src_st = ast.unparse(st)
+                    if src_st == "status = {node: IC[node] for node in G.nodes()}":
+                        out.append(f"{ind}let σ := {{ σ with status := P.ic }}")
+                        continue
+                    if src_st == "node_history = {node: ([tmin], [status[node]]) for node in G.nodes()}":
+                        out.append(f"{ind}let σ := {{ σ with node_history := P.nodes.map (fun node => (node, ([some P.tmin], [σ.status node]))) }}")
+                        continue
+                    if src_st == "data = {}":
+                        out.append(f"{ind}let σ := {{ σ with data := [] }}")
+                        continue
+                    if isinstance(tgt, ast.Subscript) and isinstance(tgt.value, ast.Name) and self.fields.get(tgt.value.id) == "statusσ":
+                        pk, key, _ = self.expr(tgt.slice, ind)
+                        p, t, k = self.expr(st.value, ind)
+                        if k != "sigma":
+                            raise Unsupported("status value")
+                        out += pk + p + [f"{ind}let σ := {{ σ with status := fset σ.status {key} {t} }}"]
+                        continue
+                    if isinstance(tgt, ast.Subscript) and isinstance(tgt.value, ast.Name) and self.fields.get(tgt.value.id) == "counts":
+                        pk, key, kk = self.expr(tgt.slice, ind)
+                        p, t, k = self.expr(st.value, ind)
+                        if kk != "sigma" or k != "list:int":
+                            raise Unsupported("data[...] assignment kinds")
+                        out += pk + p + [f"{ind}let σ := {{ σ with data := alSet σ.data {key} {t} }}"]
+                        continue
                 if isinstance(tgt, ast.Subscript) and isinstance(tgt.value, ast.Name) and self.fields.get(tgt.value.id) == "status":
                     pk, key, _ = self.expr(tgt.slice, ind)
                     p, t, k = self.expr(st.value, ind)
@@ -285,7 +371,7 @@ class Fn:
                     if tgt.id in self.fields:
                         out += p + self.assign_field(tgt.id, t, k, ind)
                     else:
-                        if k not in ("node", "link"):
+                        if k not in ("node", "link", "rat", "sigma", "nodes", "counter"):
                             raise Unsupported(f"local {tgt.id} of kind {k} is not declared")
                         self.temps[tgt.id] = k
                         out += p + [f"{ind}let {tgt.id} := {t}"]
@@ -294,6 +380,20 @@ class Fn:
             if isinstance(st, ast.AugAssign) and isinstance(st.target, ast.Name) and isinstance(st.op, ast.Add) and st.target.id in self.fields:
                 p, t, k = self.expr(ast.BinOp(left=ast.Name(id=st.target.id, ctx=ast.Load()), op=ast.Add(), right=st.value), ind)
                 out += p + self.assign_field(st.target.id, t, k, ind)
+                continue
+            if isinstance(st, ast.AugAssign) and isinstance(st.op, (ast.Add, ast.Sub)) and isinstance(st.target, ast.Subscript) \
+                    and ast.unparse(st.target.slice) == "-1" and isinstance(st.target.value, ast.Subscript) \
+                    and isinstance(st.target.value.value, ast.Name) and self.fields.get(st.target.value.value.id) == "counts":
+                d = st.target.value.value.id
+                pk, key, kk = self.expr(st.target.value.slice, ind)
+                pv, v, kv = self.expr(st.value, ind)
+                if kk != "sigma" or kv not in ("num", "int"):
+                    raise Unsupported("data[k][-1] update kinds")
+                c, x = self.tmp("col"), self.tmp("x")
+                sym = "+" if isinstance(st.op, ast.Add) else "-"
+                out += pk + pv + [f"{ind}let {c} ← PyTM.liftE (PyRT.dictGet σ.{d} {key})",
+                                  f"{ind}let {x} ← PyTM.liftE (PyTM.listLast {c})",
+                                  f"{ind}let σ := {{ σ with {d} := alSet σ.{d} {key} ({c}.dropLast ++ [({x} {sym} {v})]) }}"]
                 continue
             if isinstance(st, ast.If):
                 out += self.ifstmt(st, ind, in_loop and last)
@@ -338,13 +438,23 @@ class Fn:
                 raise Unsupported("G.neighbors argument")
             seq = f"(P.nbrs {a})"
         else:
-            raise Unsupported("iteration over " + it)
+            p, a, k = self.expr(st.iter, ind)
+            if p or k not in ("nodes", "sigmas"):
+                raise Unsupported("iteration over " + it)
+            seq = a
+            if k == "sigmas":
+                v = st.target.id
+                saved = dict(self.temps)
+                self.temps[v] = "sigma"
+                body = self.block(st.body, ind + "  ", in_loop=True)
+                self.temps = saved
+                return [f"{ind}let σ ← {seq}.foldlM (fun (σ : {self.loc_ty}) ({v} : τ) => do"] + body + [f"{ind}  pure σ) σ"]
         v = st.target.id
         saved = dict(self.temps)
         self.temps[v] = "node"
         body = self.block(st.body, ind + "  ", in_loop=True)
         self.temps = saved
-        return [f"{ind}let σ ← {seq}.foldlM (fun (σ : Loc) ({v} : Node) => do"] + body + [f"{ind}  pure σ) σ"]
+        return [f"{ind}let σ ← {seq}.foldlM (fun (σ : {self.loc_ty}) ({v} : Node) => do"] + body + [f"{ind}  pure σ) σ"]
 
     # ------------------------------------------------------------------ whole function
     def nested_defs(self, body):
@@ -399,6 +509,35 @@ class Fn:
         return f"namespace {self.ns}\n\n{defs}\n/-- the mutable locals of `{name}` -/\n{loc}\n{init}\n{loop}\n{run}\nend {self.ns}\n", src
 
 
+    def emit_complex(self):
+        body = self.node.body
+        start = next((i for i, s in enumerate(body) if ast.unparse(s).startswith("status = {node: IC[node]")), None)
+        wi = next((i for i, s in enumerate(body) if isinstance(s, ast.While)), None)
+        if start is None or wi is None or wi < start:
+            raise Unsupported("slice markers (status = {...} ... while) not found")
+        wh = body[wi]
+        if wh.orelse:
+            raise Unsupported("while-else")
+        loc = "structure Loc (τ : Type) where\n" + "\n".join(f"  {f} : {LEAN_TY[k]}" for f, k in self.fields.items()) + "\n"
+        init = ("def Loc.init (P : PyTM.CArgs τ) : Loc τ :=\n  { " +
+                ", ".join(f"{f} := {DEFAULT[k]}" for f, k in self.fields.items()) + " }\n")
+        pre = self.block(body[start:wi], "  ")
+        pc, cond = self.truth(wh.test, "    ")
+        wbody = self.block(wh.body, "      ")
+        name = self.node.name
+        loop = (f"/-- generated from the `while` loop of `{name}` (EoN/simulation.py:{wh.lineno}); `fuel` bounds the number of events -/\n"
+                f"def loop (P : PyTM.CArgs τ) : Nat → Loc τ → TM (Loc τ)\n"
+                f'  | 0, _ => TM.fail "fuel"\n'
+                f"  | fuel + 1, σ => do\n" + "\n".join(pc) + ("\n" if pc else "") +
+                f"    if {cond} then do\n" + "\n".join(wbody) + "\n      loop P fuel σ\n    else pure σ\n")
+        run = (f"/-- generated from `{name}` (EoN/simulation.py:{body[start].lineno}-{wh.lineno}): set-up, first clock draw, main loop -/\n"
+               f"def run (P : PyTM.CArgs τ) (fuel : Nat) : TM (Loc τ) := do\n"
+               f"  let σ : Loc τ := Loc.init P\n" + "\n".join(pre) + "\n  loop P fuel σ\n")
+        src = ast.unparse(ast.Module(body=body[start:wi + 1], type_ignores=[]))
+        return (f"namespace {self.ns}\nvariable {{τ : Type}} [DecidableEq τ]\n\n/-- the mutable locals of `{name}` -/\n{loc}\n{init}\n{loop}\n{run}\n"
+                f"end {self.ns}\n"), src
+
+
 HEADER = '''import EoNVerif.Gen.ListDictTM
 /-!
 GENERATED by harness/pyfunc2lean.py from `Gillespie_SIR` and `Gillespie_SIS` of EoN/simulation.py — do not edit;
@@ -425,6 +564,19 @@ def translate(repo=REPO):
         except Unsupported as ex:
             errors[name] = f"unsupported: {ex}"
     sha = hashlib.sha1("\n".join(sources).encode()).hexdigest()
+    # Gillespie_complex_contagion goes to its own file (Gen/ComplexGen.lean): a failed translation of one function must
+    # not take the other properties' generated code down
+    translate.complex_text = ""
+    name = "Gillespie_complex_contagion"
+    if name not in fns:
+        errors[name] = "function not found"
+    else:
+        try:
+            text, s2 = Fn(fns[name], FIELDS_CC, "GenCC", params=PARAMS_CC, profile="complex").emit_complex()
+            sha2 = hashlib.sha1(s2.encode()).hexdigest()
+            translate.complex_text = HEADER.format(sha=sha2).replace("`Gillespie_SIR` and `Gillespie_SIS`", "`Gillespie_complex_contagion`") + text
+        except Unsupported as ex:
+            errors[name] = f"unsupported: {ex}"
     return HEADER.format(sha=sha) + "\n".join(out), errors
 
 
@@ -435,17 +587,26 @@ def regenerate():
         warnings.simplefilter("ignore")
         text, errors = translate()
     old = open(target).read() if os.path.exists(target) else None
-    if text and not errors and old != text:
+    gill_ok = not any(k in errors for k in ("Gillespie_SIR", "Gillespie_SIS"))
+    if text and gill_ok and old != text:
         tmp = target + ".tmp%d" % os.getpid()
         with open(tmp, "w") as f:
             f.write(text)
         os.replace(tmp, target)
-    return old != text, errors
+    ctext = getattr(translate, "complex_text", "")
+    ctarget = os.path.join(os.path.dirname(target), "ComplexGen.lean")
+    cold = open(ctarget).read() if os.path.exists(ctarget) else None
+    if ctext and cold != ctext:
+        tmp = ctarget + ".tmp%d" % os.getpid()
+        with open(tmp, "w") as f:
+            f.write(ctext)
+        os.replace(tmp, ctarget)
+    return old != text or (bool(ctext) and cold != ctext), errors
 
 
 def main():
     changed, errors = regenerate()
-    print("pyfunc2lean: Gen/GillespieGen.lean %s (%d functions)" % ("rewritten" if changed else "up to date", 2 - len(errors)))
+    print("pyfunc2lean: Gen/GillespieGen.lean, Gen/ComplexGen.lean %s (%d functions)" % ("rewritten" if changed else "up to date", 3 - len(errors)))
     for n, e in errors.items():
         print(f"pyfunc2lean: {n}: {e}")
     return 1 if errors else 0
